@@ -341,6 +341,11 @@ def call_marker(it, path, pos, kw):
         v = Arr.fresh("eigv", (n_, k_), "real")
         ctx.log_ghost("eig", dict(w=w, v=v, k=k_, n=n_, solver=path))
         return (w, v)
+    if path == "sparse.issparse":
+        # dense stand-ins (ndarrays of the model) are not scipy sparse matrices
+        if isinstance(pos[0], Arr):
+            return False
+        raise PathAbort("sparse.issparse of a non-array", ctx.cur_line)
     if path == "accumarray":
         return N.accumarray(it, *pos, **kw)
     if path == "ttb.khatrirao":
